@@ -141,6 +141,11 @@ def model_flags(line):
     return line.rsplit(" ok=", 1)[1] if " ok=" in line else "???"
 
 
+def comp(ps, name):
+    """component by name; the main controller is addressed by its own name"""
+    return ps.controller if name == ps.controller.name else ps.get_comp(name)
+
+
 def run_scenario(case, observer=None):
     """Real run on exact rationals; returns (view, ops, impl, per-increment info)."""
     spec = dict(case["spec"]); spec["exact"] = True
@@ -157,8 +162,16 @@ def run_scenario(case, observer=None):
         k = int(round(curr_time.get_hours() / dt))
         state["k"] = k
         for (name, rep) in faults.get(str(k), []):
-            l = ps_.get_comp(name)
+            l = comp(ps_, name)
             kindname = type(l).__name__
+            if kindname == "MainController":
+                # the main controller goes down for `rep` hours (hardware failure under manual repair): the sub-controllers
+                # fall back on their manual loops meanwhile; the model follows with `ctl step` instead of `ctl astep`
+                if l.state.name == "OK":
+                    from relsad.network.components import ControllerState
+                    l.state = ControllerState.REPAIR
+                    l.remaining_repair_time = Time(F(rep))
+                continue
             if kindname in ("Sensor", "IntelligentSwitch"):
                 # a device of the automatic control fails (state FAILED, as a failure draw would set it); `rep` is its manual
                 # repair time.  Not part of the switching model: such scenarios are oracle-only (state["devfail"]).
